@@ -1,0 +1,51 @@
+//go:build verif
+
+package webp
+
+// Verification hook for property C06 (lossy decode equals the encoder's own
+// reconstruction). Add-only, compiled only with -tags verif.
+
+import (
+	"fmt"
+	"image"
+
+	"github.com/deepteams/webp/internal/lossy"
+)
+
+// VerifEncodeLossyRecon runs the lossy encoder as encodeLossyWithAlpha does (the
+// configuration comes from verifLossyConfig, whose body the /verif translator keeps
+// identical to encode.go) and returns the VP8 bitstream together with copies of
+// the encoder's Y/U/V planes after EncodeFrame, i.e. its own reconstruction,
+// taken before the encoder goes back to its pool.
+func VerifEncodeLossyRecon(img image.Image, opts *EncoderOptions) (bs []byte, w, h int, y, u, v []byte, err error) {
+	if opts == nil {
+		opts = DefaultOptions()
+	}
+	if err = validateConfig(opts); err != nil {
+		return
+	}
+	hasAlpha := imageHasAlpha(img)
+	if !opts.Exact {
+		img = cleanupTransparentAreaLossyWith(img, hasAlpha)
+	}
+	cfg := verifLossyConfig(opts, hasAlpha)
+	var enc *lossy.VP8Encoder
+	if opts.UseSharpYUV {
+		yuv, e := sharpYUVConvert(img)
+		if e != nil {
+			err = fmt.Errorf("webp: sharp yuv: %w", e)
+			return
+		}
+		enc = lossy.NewEncoderFromYUV(yuv, img.Bounds().Dx(), img.Bounds().Dy(), cfg)
+	} else {
+		enc = lossy.NewEncoder(img, cfg)
+	}
+	defer lossy.ReleaseEncoder(enc)
+	bs, err = enc.EncodeFrame()
+	if err != nil {
+		return
+	}
+	bs = append([]byte(nil), bs...)
+	w, h, y, u, v = enc.VerifReconPlanes()
+	return
+}
